@@ -193,15 +193,12 @@ Definition claim_async (i : nat) (now : Z) (n : node) (k : node -> act node) : a
       if c_state c =? ca_state_NONE then
         match c_pref c with
         | Some p =>
-            let c1 := with_ca_state c (c_state c) (c_addr c) p in
-            Emit (set_ca n i c1) (send_address_claimed c1 p) (fun n' =>
-              match nth_error (n_cas n') i with
-              | None => Raise n' E_Alias
-              | Some c2 =>
-                  if (c_ann c2 >? 127) && (c_ann c2 <? 248)
-                  then rearm ca_VETO (set_ca n' i (with_ca_state c2 ca_state_WAIT_VETO (c_addr c2) (c_ann c2)))
-                  else rearm 500000 (set_ca n' i (with_ca_state c2 ca_state_NORMAL (Some (c_ann c2)) (c_ann c2)))
-              end)
+            (* repaired order: the state is updated BEFORE the claim is handed to the bus *)
+            if (p >? 127) && (p <? 248)
+            then let c1 := with_ca_state c ca_state_WAIT_VETO (c_addr c) p in
+                 Emit (set_ca n i c1) (send_address_claimed c1 p) (rearm ca_VETO)
+            else let c1 := with_ca_state c ca_state_NORMAL (Some p) p in
+                 Emit (set_ca n i c1) (send_address_claimed c1 p) (rearm 500000)
         | None => rearm 500000 n
         end
       else if c_state c =? ca_state_WAIT_VETO then
@@ -226,12 +223,8 @@ Definition process_addressclaim (i : nat) (sa : Z) (data : list Z) (n : node) (k
             let c1 := with_ca_state c ca_state_CANNOT_CLAIM None (c_ann c) in
             Emit (set_ca n i c1) (send_address_claimed c1 addr_NULL) k
           else
-            let c1 := with_ca_state c (c_state c) (Some addr_NULL) (c_ann c + 1) in
-            Emit (set_ca n i c1) (send_address_claimed c1 (c_ann c + 1)) (fun n' =>
-              match nth_error (n_cas n') i with
-              | None => Raise n' E_Alias
-              | Some c2 => k (set_ca n' i (with_ca_state c2 ca_state_WAIT_VETO (c_addr c2) (c_ann c2)))
-              end)
+            let c1 := with_ca_state c ca_state_WAIT_VETO (Some addr_NULL) (c_ann c + 1) in
+            Emit (set_ca n i c1) (send_address_claimed c1 (c_ann c + 1)) k
         else
           if c_state c =? ca_state_NORMAL
           then Emit n (send_address_claimed c (match c_addr c with Some a => a | None => addr_NULL end)) k
